@@ -63,7 +63,7 @@ BINCLS = {'Plus': 'Plus', 'Minus': 'Minus', 'Times': 'Times', 'Divide': 'Divide'
           'BMin': 'bioMin', 'BMax': 'bioMax', 'And': 'And', 'Or': 'Or', 'Eq': 'Equal', 'Ne': 'NotEqual',
           'Le': 'LessOrEqual', 'Ge': 'GreaterOrEqual', 'Lt': 'Less', 'Gt': 'Greater'}
 UNCLS = {'UMinus': 'UnaryMinus', 'Exp': 'exp', 'Log': 'log', 'Logzero': 'logzero', 'Sin': 'sin', 'Cos': 'cos',
-         'NormalCdf': 'bioNormalCdf'}
+         'NormalCdf': 'bioNormalCdf', 'MonteCarlo': 'MonteCarlo', 'PanelTraj': 'PanelLikelihoodTrajectory'}
 
 
 class Builder:
@@ -103,6 +103,8 @@ class Builder:
             return Beta(n['n'], n.get('v', 0), None, None, 1 if n.get('fixed') else 0)
         if t == 'var':
             return Variable(n['n'])
+        if t == 'draws':
+            return E.bioDraws(n['n'], n['type'])
         if t == 'bin':
             cls = getattr(EB, BINCLS[n['op']], None) or getattr(EC, BINCLS[n['op']])
             return cls(self.node(n['k'][0]), self.node(n['k'][1]))
@@ -153,6 +155,8 @@ def tree_with_catalogs(x):
         return {'h': ['Beta', x.name, bool(x.status != 0)], 'k': []}
     if cn == 'Variable':
         return {'h': ['Var', x.name], 'k': []}
+    if cn == 'bioDraws':
+        return {'h': ['Draws', x.name, x.drawType], 'k': []}
     if cn in bio_bridge.BIN:
         return {'h': ['Bin', bio_bridge.BIN[cn]], 'k': [tree_with_catalogs(x.left), tree_with_catalogs(x.right)]}
     if cn in bio_bridge.UN:
@@ -186,7 +190,7 @@ ELEM_TYPES = {'free': TypeOfElementaryExpression.FREE_BETA, 'fixed': TypeOfEleme
               'var': TypeOfElementaryExpression.VARIABLE}
 
 
-def observe(expr, want_value):
+def observe(expr, want_value, view=True, engine=False):
     """what the formula looks like through its catalogs, by the delegating methods"""
     o = {}
     try:
@@ -208,7 +212,8 @@ def observe(expr, want_value):
         o['elem_dict'] = {k: sorted(expr.dict_of_elementary_expression(t).keys()) for k, t in ELEM_TYPES.items()}
     except Exception as e:  # noqa
         o['elem_exc'] = exc(e)
-    o['view'] = generic_view(expr)
+    if view:
+        o['view'] = generic_view(expr, engine)
     if want_value:
         try:
             v = float(expr.get_value())
@@ -239,7 +244,7 @@ def canonical_signature(expr):
     the canonical form of the line that defines it (sharing of sub-objects becomes invisible)."""
     import re
     from biogeme.expressions import IdManager
-    idm = IdManager([expr], database(), 0)
+    idm = IdManager([expr], database(), 3)
     expr.set_id_manager(idm)
     lines = [l.decode() for l in expr.get_signature()]
     table = {}
@@ -266,16 +271,54 @@ def shape(x):
     return [shape(c) for c in x.get_children()]
 
 
-def generic_view(expr):
+SEARCHED = ['MonteCarlo', 'PanelLikelihoodTrajectory', 'bioDraws', 'Beta', 'Variable', 'Numeric', 'Plus', 'Minus', 'Times',
+            'Divide', 'Power', 'bioMin', 'bioMax', 'And', 'Or', 'Equal', 'NotEqual', 'LessOrEqual', 'GreaterOrEqual', 'Less',
+            'Greater', 'UnaryMinus', 'exp', 'log', 'logzero', 'sin', 'cos', 'bioNormalCdf', 'PowerConstant', 'bioMultSum',
+            'Elem', 'LogLogit', 'Catalog', 'Integrate', 'RandomVariable']
+
+
+def call(f):
+    try:
+        r = f()
+        if isinstance(r, (set, frozenset)):
+            return sorted(str(x) for x in r)
+        if isinstance(r, tuple):
+            return [sorted(str(x) for x in part) if isinstance(part, (set, frozenset)) else str(part) for part in r]
+        return r
+    except Exception as e:  # noqa
+        return {'exc': type(e).__name__}
+
+
+def engine_value(expr):
+    """value through the C++ engine on the 2-row database, draws seeded"""
+    import numpy as np
+    try:
+        np.random.seed(12345)
+        v = expr.get_value_c(database=database(), number_of_draws=5, prepare_ids=True)
+        return [float(a).hex() for a in np.atleast_1d(v)]
+    except Exception as e:  # noqa
+        return {'exc': type(e).__name__, 'msg': str(e)[:200]}
+
+
+def generic_view(expr, engine=False):
+    """every tree operation that a catalog delegates to its selected member, by its generic interface"""
     o = {}
     try:
         o['shape'] = shape(expr)
     except Exception as e:  # noqa
         o['shape'] = exc(e)
+    o['embed'] = {t: call(lambda t=t: bool(expr.embed_expression(t))) for t in SEARCHED}
+    o['requires_draws'] = call(lambda: bool(expr.requires_draws()))
+    o['count_panel'] = call(expr.count_panel_trajectory_expressions)
+    o['check_draws'] = call(expr.check_draws)
+    o['check_rv'] = call(expr.check_rv)
+    o['check_panel'] = call(expr.check_panel_trajectory)
     try:
         o['sig'] = canonical_signature(expr)
     except Exception as e:  # noqa
         o['sig'] = {'exc': type(e).__name__}
+    if engine:   # only on formulas the harness declares safe for the C++ engine (it can crash on ill-formed ones)
+        o['engine'] = engine_value(expr)
     return o
 
 
@@ -342,10 +385,10 @@ def run_structure(c):
             conf = Configuration([SelectionTuple(a, b) for a, b in q['sels']])
             r['id'] = conf.string_id
             expr.configure_catalogs(conf)
-            r.update(observe(expr, q.get('value', False)))
+            r.update(observe(expr, q.get('value', False), engine=bool(q.get('engine'))))
             if q.get('hand') is not None:
                 try:
-                    r['hand_view'] = generic_view(Builder({}).node(q['hand']))
+                    r['hand_view'] = generic_view(Builder({}).node(q['hand']), bool(q.get('engine')))
                 except Exception as e:  # noqa
                     r['hand_view'] = exc(e)
             if q.get('hand') is not None and q.get('value', False):
@@ -410,7 +453,7 @@ def run_structure(c):
 
 def observe_object(expr, want_value):
     """one object of a history, observed without selecting anything"""
-    o = observe(expr, want_value)
+    o = observe(expr, want_value, view=False)
     try:
         o['current_sels'] = [list(x) for x in expr.current_configuration().selections]
     except Exception as e:  # noqa
